@@ -497,9 +497,9 @@ func checkRawOnce(t testing.TB, c rawCase) error {
 			defer wg.Done()
 			switch c.Kind {
 			case "copy-tcp":
-				results[ci] = runCopyTCP(e.addr(proxyPort), tagOf(ci), payloads[ci][0], c.Clients[ci].Msgs[0].Cuts, len(c.reply(ci, 0, 0, nil)))
+				results[ci] = runCopyTCP(ci, e.addr(proxyPort), tagOf(ci), payloads[ci][0], c.Clients[ci].Msgs[0].Cuts, len(c.reply(ci, 0, 0, nil)))
 			case "dns-tcp":
-				results[ci] = runDNSTCP(e.addr(proxyPort), c.Clients[ci], payloads[ci])
+				results[ci] = runDNSTCP(ci, e.addr(proxyPort), c.Clients[ci], payloads[ci])
 			default:
 				results[ci] = runUDP(e.addr(proxyPort), c, ci, payloads[ci], ub)
 			}
@@ -515,23 +515,7 @@ func checkRawOnce(t testing.TB, c rawCase) error {
 		return fmt.Errorf("the decoy address was contacted: %s", e.decoy.last())
 	}
 	// what the backend saw
-	locals := map[string]bool{}
-	for _, r := range results {
-		if r.local != nil {
-			locals[r.local.String()] = true
-		}
-	}
-	checkRemotes := func(remotes []string) error {
-		for _, ra := range remotes {
-			if locals[ra] {
-				return fmt.Errorf("backend was contacted from the client's own address %s", ra)
-			}
-			if !strings.HasPrefix(ra, "127.0.0.1:") {
-				return fmt.Errorf("backend was contacted from %s, not from the proxy host", ra)
-			}
-		}
-		return nil
-	}
+	checkRemotes := fromProxyHost
 	var pending error
 	switch c.Kind {
 	case "copy-tcp":
@@ -706,9 +690,9 @@ func countSeen(seen map[string]int, ps [][]byte) int {
 	return n
 }
 
-func runCopyTCP(addr string, tag byte, payload []byte, cuts []int, replyLen int) *rawResult {
+func runCopyTCP(ci int, addr string, tag byte, payload []byte, cuts []int, replyLen int) *rawResult {
 	res := &rawResult{}
-	c, err := net.DialTimeout("tcp", addr, 5*time.Second)
+	c, err := dialTCPFrom(ci, addr)
 	if err != nil {
 		res.err = fmt.Errorf("infra: dial proxy %s: %v", addr, err)
 		return res
@@ -786,7 +770,7 @@ func pace(kind string) {
 func runUDP(addr string, c rawCase, ci int, payloads [][]byte, ub *udpBackend) *rawResult {
 	res := &rawResult{}
 	ra, _ := net.ResolveUDPAddr("udp", addr)
-	u, err := net.DialUDP("udp", nil, ra)
+	u, err := net.DialUDP("udp", &net.UDPAddr{IP: clientIP(ci)}, ra)
 	if err != nil {
 		res.err = fmt.Errorf("infra: %v", err)
 		return res
@@ -840,9 +824,9 @@ func runUDP(addr string, c rawCase, ci int, payloads [][]byte, ub *udpBackend) *
 	return res
 }
 
-func runDNSTCP(addr string, cl rawClient, payloads [][]byte) *rawResult {
+func runDNSTCP(ci int, addr string, cl rawClient, payloads [][]byte) *rawResult {
 	res := &rawResult{}
-	c, err := net.DialTimeout("tcp", addr, 5*time.Second)
+	c, err := dialTCPFrom(ci, addr)
 	if err != nil {
 		res.err = fmt.Errorf("infra: dial proxy %s: %v", addr, err)
 		return res
@@ -1027,7 +1011,7 @@ func runRaw(t *testing.T, name, kind string, checks int) {
 	})
 }
 
-func TestCopyTCP(t *testing.T) { runRaw(t, "TestCopyTCP", "copy-tcp", vlib.Open(prop).Pick(300, 2500)) }
-func TestCopyUDP(t *testing.T) { runRaw(t, "TestCopyUDP", "copy-udp", vlib.Open(prop).Pick(300, 2500)) }
-func TestDNSUDP(t *testing.T)  { runRaw(t, "TestDNSUDP", "dns-udp", vlib.Open(prop).Pick(300, 2500)) }
-func TestDNSTCP(t *testing.T)  { runRaw(t, "TestDNSTCP", "dns-tcp", vlib.Open(prop).Pick(250, 2000)) }
+func TestCopyTCP(t *testing.T) { runRaw(t, "TestCopyTCP", "copy-tcp", vlib.Open(prop).Pick(600, 5000)) }
+func TestCopyUDP(t *testing.T) { runRaw(t, "TestCopyUDP", "copy-udp", vlib.Open(prop).Pick(600, 5000)) }
+func TestDNSUDP(t *testing.T)  { runRaw(t, "TestDNSUDP", "dns-udp", vlib.Open(prop).Pick(600, 5000)) }
+func TestDNSTCP(t *testing.T)  { runRaw(t, "TestDNSTCP", "dns-tcp", vlib.Open(prop).Pick(500, 4000)) }
